@@ -119,11 +119,15 @@ class Worker:
 
 
 class Pool:
-    def __init__(self, argv, n=NPROC, env=None):
+    def __init__(self, argv, n=NPROC, env=None, default_timeout=None):
         self.workers = [Worker(argv, env) for _ in range(n)]
+        self.default_timeout = default_timeout
 
     def map(self, reqs, timeout=None):
-        """responses in request order"""
+        """responses in request order; a request that is not answered within the timeout kills its worker and is
+        answered {"died": "timeout"} (a hang of the implementation is an observation, it must not hang the check)"""
+        if timeout is None:
+            timeout = self.default_timeout
         out = [None] * len(reqs)
         n = len(self.workers)
 
@@ -145,7 +149,7 @@ class Pool:
 
 def harness_pool(n=NPROC):
     os.makedirs(TMP, exist_ok=True)
-    return Pool([HARNESS_BIN], n, env={"HARNESS_TMP": TMP})
+    return Pool([HARNESS_BIN], n, env={"HARNESS_TMP": TMP}, default_timeout=int(os.environ.get("VERIF_OP_TIMEOUT", "120")))
 
 
 def model_pool(n=NPROC):
@@ -167,11 +171,17 @@ def run_cli(argv, files=None, stdin=b"", mtimes=None, timeout=60, keep=False, en
     d = os.path.join(TMP, "cli-%d-%d" % (os.getpid(), n))
     shutil.rmtree(d, ignore_errors=True)
     os.makedirs(d)
+    links = []
     for name, content in (files or {}).items():
         path = os.path.join(d, name)
         os.makedirs(os.path.dirname(path), exist_ok=True)
+        if isinstance(content, dict) and "symlink" in content:
+            links.append((path, os.path.join(d, content["symlink"])))      # a symbolic link to another file of the job
+            continue
         with open(path, "wb") as f:
             f.write(content if isinstance(content, bytes) else content.encode())
+    for path, target in links:
+        os.symlink(target, path)
     for name, t in (mtimes or {}).items():
         os.utime(os.path.join(d, name), (t, t))
     args = [CLI_BIN] + [a.replace("{DIR}", d) for a in argv]
